@@ -149,6 +149,24 @@ func (x *Exec) Close() {
 	x.E = nil
 }
 
+// OpenOn attaches the executor to a (crash image of a) data directory.
+func OpenOn(cs *vkit.Case, dir string, m *Model) *Exec {
+	x := &Exec{CS: cs, M: m, Dir: dir, Opts: Options(dir)}
+	x.open()
+	return x
+}
+
+// CloseRaw closes the engine without waiting for cascades (shutdown while a cascade runs).
+func (x *Exec) CloseRaw() error {
+	x.CS.Op("Close() [raw]")
+	err := x.E.Close()
+	x.E = nil
+	return err
+}
+
+// Reopen opens the engine again after CloseRaw.
+func (x *Exec) Reopen() { x.open(); x.Restarts++ }
+
 // Restart = Close + Open on the same directory.
 func (x *Exec) Restart() {
 	x.kind("restart")
@@ -444,16 +462,9 @@ func (x *Exec) VDelete(index, id string) error {
 	x.Settle()
 	hi := x.Now()
 	mi := x.M.Idx[index]
-	delete(mi.Recs, id)
+	_ = mi
 	// cascade: every active edge into or out of the node is soft-unlinked
-	gid := GraphID(index, id)
-	for k, vs := range x.M.Edges {
-		for _, v := range vs {
-			if v.Deleted == 0 && v.DHi == 0 && (k.Src == gid || v.Target == gid) {
-				v.DLo, v.DHi = lo, hi
-			}
-		}
-	}
+	x.M.DeleteWithCascade(index, id, lo, hi)
 	return nil
 }
 
